@@ -713,3 +713,28 @@ Proof.
   - intros E. apply authority_matches_sni_spec in E. congruence.
 Qed.
 
+(** ** handshake and strict-SNI snapshot use the same name *)
+Lemma strip_dot_app_dot n : last n 0%N <> DOT -> strip_dot (n ++ [DOT]) = n.
+Proof.
+  intros _. unfold strip_dot. rewrite last_last, N.eqb_refl. apply removelast_last.
+Qed.
+
+Lemma conn_name_absolute n : last (map lower n) 0%N <> DOT -> conn_name (n ++ [DOT]) = conn_name n.
+Proof.
+  intros H. unfold conn_name. rewrite map_app. cbn [map]. change (lower DOT) with DOT.
+  rewrite strip_dot_app_dot by exact H. unfold strip_dot.
+  destruct (N.eqb (last (map lower n) 0%N) DOT) eqn:E; [apply N.eqb_eq in E; contradiction|reflexivity].
+Qed.
+
+Lemma hello_snapshot_is_served re_match r wire :
+  hello_snapshot re_match r wire =
+  match hello_served re_match r wire with
+  | Some fp => option_map c_names (aget fp (store r))
+  | None => None
+  end.
+Proof.
+  unfold hello_snapshot, hello_served, names_for_sni.
+  destruct (resolve re_match r (conn_name wire)) as [[k fp]|]; cbn [option_map snd]; [|reflexivity].
+  destruct (aget fp (store r)); reflexivity.
+Qed.
+
